@@ -251,6 +251,32 @@ class C14(core.Prop):
         r, e, _, _ = rx.run_extract(ex, opts, size, seed, 'dict')
         if e is None and r != base:
             fail('dict-differs', 'list %r dict %r' % (base, r), 'dict-differs' + sk)
+        # and with further keys supplied zero times (they are not examples)
+        r, e, _, _ = rx.run_extract(ex, opts, size, seed, 'dict0')
+        if e is None and r != base:
+            fail('dict-differs', 'list %r, dictionary with keys of count 0 %r' % (base, r), 'dict-differs:zero-count' + sk)
+        # the two-step route (an Extractor built with extract=False, extraction asked for later) with a seed: the global
+        # generator is the same after each step as before it, and the expressions are the same
+        if seed is not None:
+            kw2 = dict(opts)
+            if size:
+                kw2['size'] = rx.rexpy.Size(**size)
+            st_a = random.getstate()
+            try:
+                x2 = rx.rexpy.Extractor(list(ex), extract=False, seed=seed, **kw2)
+                st_b = random.getstate()
+                x2.extract()
+                st_c = random.getstate()
+                r2 = list(x2.results.rex) if x2.results else []
+                if st_b != st_a or st_c != st_a:
+                    fail('prng-state-changed', 'two-step extraction with a seed: the global random state differs after %s'
+                         % ('the constructor' if st_b != st_a else 'extract()'), 'prng-state-changed:two-step' + sk)
+                elif r2 != base:
+                    fail('repeat-differs', 'two-step extraction gives %r, extract() %r' % (r2, base), 'repeat-differs:two-step' + sk)
+            except Exception:   # noqa
+                pass
+            finally:
+                random.setstate(st_a)
         # rexpy_streams on the caller's own list, with a header line to skip: the same expressions on every call, and the
         # list is the caller's
         hdr = ['header'] + list(ex)
